@@ -232,7 +232,12 @@ func dischargeAll(items []workItem, timeoutMs, workers int) {
 	var units []unit
 	for _, it := range items {
 		o := it.o
-		if o.Solver == "syntactic" {
+		if o.Solver == "syntactic" || o.Solver == "ground" {
+			continue
+		}
+		if len(o.Subs) > 1 && o.Batch != "" {
+			// many small goals over one context: one incremental solver run
+			units = append(units, unit{it.fr, o, nil, -1})
 			continue
 		}
 		if len(o.Subs) > 1 {
@@ -251,6 +256,10 @@ func dischargeAll(items []workItem, timeoutMs, workers int) {
 		go func() {
 			defer wg.Done()
 			for i := range ch {
+				if units[i].k == -1 {
+					dischargeIncremental(units[i].fr, units[i].o, dir, timeoutMs, i)
+					continue
+				}
 				discharge(units[i].fr, units[i].o, dir, timeoutMs, i)
 			}
 		}()
@@ -596,4 +605,99 @@ func dischargeBatches(items []workItem, dir string, timeoutMs, workers int) {
 	}
 	close(ch)
 	wg.Wait()
+}
+
+// dischargeIncremental decides all sub-goals of one obligation in a single
+// incremental z3 run (push/pop per sub-goal); a sub-goal that is not unsat
+// there is re-run on its own (all solvers, with model).
+func dischargeIncremental(fr *FuncResult, o *Obligation, dir string, timeoutMs int, idx int) {
+	t0 := time.Now()
+	prefix := o.Subs[0].Prefix
+	for _, sg := range o.Subs {
+		if sg.Prefix < prefix {
+			prefix = sg.Prefix
+		}
+	}
+	var b strings.Builder
+	b.WriteString("(set-logic ALL)\n")
+	for _, l := range fr.Prelude {
+		b.WriteString(l)
+		b.WriteByte('\n')
+	}
+	if !o.NoStatics {
+		for _, l := range fr.Statics {
+			b.WriteString(l)
+			b.WriteByte('\n')
+		}
+	}
+	for _, l := range fr.Script[:prefix] {
+		b.WriteString(l)
+		b.WriteByte('\n')
+	}
+	for _, sg := range o.Subs {
+		b.WriteString("(push 1)\n")
+		for _, l := range fr.Script[prefix:sg.Prefix] {
+			b.WriteString(l)
+			b.WriteByte('\n')
+		}
+		for _, l := range sg.Extra {
+			b.WriteString(l)
+			b.WriteByte('\n')
+		}
+		fmt.Fprintf(&b, "(assert %s)\n(assert (not %s))\n(check-sat)\n(pop 1)\n", sg.Cond, sg.Goal)
+	}
+	file := filepath.Join(dir, fmt.Sprintf("inc%06d.smt2", idx))
+	os.WriteFile(file, []byte(b.String()), 0o644)
+	defer os.Remove(file)
+	budget := timeoutMs/1000*len(o.Subs)/8 + 30
+	ctx, cancel := context.WithTimeout(context.Background(), time.Duration(budget)*time.Second)
+	cmd := exec.CommandContext(ctx, "z3-new", fmt.Sprintf("-t:%d", timeoutMs), file)
+	var out bytes.Buffer
+	cmd.Stdout = &out
+	cmd.Stderr = &out
+	cmd.Run()
+	cancel()
+	lines := strings.Split(strings.TrimSpace(out.String()), "\n")
+	o.Status, o.Solver = "unsat", "z3-new(incremental)"
+	bad := -1
+	if len(lines) != len(o.Subs) {
+		bad = 0
+		for k, l := range lines {
+			if strings.TrimSpace(l) != "unsat" {
+				bad = k
+				break
+			}
+			bad = k + 1
+		}
+		if bad >= len(o.Subs) {
+			bad = len(o.Subs) - 1
+		}
+	} else {
+		for k, l := range lines {
+			if strings.TrimSpace(l) != "unsat" {
+				bad = k
+				break
+			}
+		}
+	}
+	if bad >= 0 {
+		sg := o.Subs[bad]
+		tmp := &Obligation{Name: o.Name, Prefix: sg.Prefix, Cond: sg.Cond, Goal: sg.Goal, Extra: sg.Extra, Expect: o.Expect, NoStatics: o.NoStatics, TimeoutMs: o.TimeoutMs}
+		discharge(fr, tmp, dir, timeoutMs, idx*1000+bad)
+		if tmp.Status != "unsat" {
+			o.Status, o.Solver, o.Model = tmp.Status, tmp.Solver, tmp.Model
+			o.Output = fmt.Sprintf("sub-goal %d of %d (%s):\n%s", bad+1, len(o.Subs), truncate(sg.Cond, 200), tmp.Output)
+		} else {
+			// the incremental run was inconclusive for this sub-goal only; check the rest individually
+			for k := bad + 1; k < len(o.Subs) && o.Status == "unsat"; k++ {
+				sg := o.Subs[k]
+				t2 := &Obligation{Name: o.Name, Prefix: sg.Prefix, Cond: sg.Cond, Goal: sg.Goal, Extra: sg.Extra, Expect: o.Expect, NoStatics: o.NoStatics}
+				discharge(fr, t2, dir, timeoutMs, idx*1000+k)
+				if t2.Status != "unsat" {
+					o.Status, o.Solver, o.Model, o.Output = t2.Status, t2.Solver, t2.Model, fmt.Sprintf("sub-goal %d of %d:\n%s", k+1, len(o.Subs), t2.Output)
+				}
+			}
+		}
+	}
+	o.Seconds = time.Since(t0).Seconds()
 }
